@@ -7,6 +7,7 @@
    m.load <json|xml> <mem|stream> <enc> <type#> <rootkey|-> <pol> <hex bytes>
           -> OK <value> | EXC:<category> | UNMODELLED | DECODE-ERR      (the model's prediction of jx.load)
    m.parse <json|xml> <enc> <hex bytes> -> DOM <dom> | REJECT | DECODE-ERR   (reference parser only)
+   m.val  <json|xml> <vclass#> <pol> <hex bytes, UTF-8> -> <scopes' answer> | <RFC 6901 answer>  (xml: the scopes' answer only)
    m.doc  <json|xml> <type#> <rootkey|-> <value> -> DOC <ok 0|1> <text, doubles as <bits>>   (the model's document)
 
    values: n | t | f | i<decimal> | d<16 hex> | s<hex of UTF-8> | [v,..] | {s<hex>:v,..} | o- | o+<v> (optional / smart pointer)
@@ -498,12 +499,38 @@ module Xmlops = struct
     | Some d -> "DOC 1 " ^ cps_to_utf8_hex (xml_print_cps d)
 end
 
+(* ------------------------------------------------------------------ validation error paths *)
+let get_vtype (idx : string) : vty =
+  match List.nth_opt vcatalogue (int_of_string idx) with Some t -> t | None -> raise (Bad "vclass#")
+
+let fmt_vout (r : vout) : string =
+  match r with
+  | VOk -> "OK"
+  | VExc e -> "EXC:" ^ err_name e
+  | VErrors m ->
+    "VAL " ^ String.concat ";" (List.map (fun (p, ms) ->
+      cps_to_utf8_hex p ^ ":" ^ String.concat "" (List.map (function MReq -> "R" | MRange -> "G") ms)) m)
+
+(* m.val json: what the scopes report | what RFC 6901 pointers would be; m.val xml: what the scopes report *)
+let val_op arch idx pol hex : string =
+  let t = get_vtype idx in
+  let bytes = if hex = "-" then [] else parse_hexbytes hex in
+  match utf8_to_cps bytes with
+  | None -> "DECODE-ERR"
+  | Some cps ->
+    if arch = "json" then begin
+      let cps = if List.exists (fun c -> int_of_n c = 0) cps then cut_at_nul cps else cps in
+      let (a, b) = vload_json_text strtod_oracle i2d_oracle (opts_of pol) t cps in
+      fmt_vout a ^ " | " ^ fmt_vout b
+    end else fmt_vout (vload_xml_text Xmlops.xstrtod_oracle Xmlops.xstrtof_oracle (opts_of pol) t cps)
+
 (* ------------------------------------------------------------------ main *)
 let run_case (line : string) : string =
   let t = Array.of_list (String.split_on_char ' ' line) in
   let n = Array.length t in
   try
     match t.(0), (if n > 1 then t.(1) else "") with
+    | "m.val", ("json" | "xml") when n = 5 -> val_op t.(1) t.(2) t.(3) t.(4)
     | "m.chk", "json" when n = 8 -> json_chk t.(2) t.(3) t.(4) t.(6) (t.(7))
     | "m.chk", "json" when n = 9 -> json_chk t.(2) t.(3) t.(4) t.(6) (t.(7) ^ " " ^ t.(8))
     | "m.load", "json" when n = 8 -> json_load t.(2) t.(3) t.(4) t.(6) t.(7)
